@@ -300,6 +300,30 @@ pub fn c16_compiled(ctx: &Ctx, out: &mut Outcome, known: &[Known]) {
                 }
             }
         }
+        // modules the derive itself rejects: what it said (the generated programs are meant to be
+        // valid, so every entry here is either a generator rule that is missing or a rejection of
+        // a valid program)
+        {
+            let mut said: BTreeMap<String, u64> = BTreeMap::new();
+            for d in &uncoded {
+                if !accepted_by_derive.contains(&d.module.name) {
+                    let line = d.rendered.lines().find(|l| l.starts_with("error")).unwrap_or("").to_string();
+                    *said.entry(line).or_default() += 1;
+                }
+            }
+            if !said.is_empty() {
+                out.extra.insert("derive_rejections_of_generated_modules".into(), json!(said));
+            }
+            // the generated programs are in the supported fragment (they are what C01..C15 run
+            // on): a rejection is a diagnosis of a problem that is not there
+            for d in &uncoded {
+                if !accepted_by_derive.contains(&d.module.name) {
+                    let line = d.rendered.lines().find(|l| l.starts_with("error")).unwrap_or("").to_string();
+                    let placed = Placed { module: d.module.clone(), slot: 0, index: 0 };
+                    out.take_failures(&[json!({"signature": "valid-item-rejected", "message": format!("the derive rejects a generated program of the supported fragment: {line}\n{}", d.rendered.chars().take(1200).collect::<String>()), "case": case_of(&placed, json!({"compile_only": true, "must_compile": true}))})], known);
+                }
+            }
+        }
         // errors that rustc does not attribute to the derive (it reports them at the user's own
         // tokens, which the derive re-emits with their spans): the control build decides. The same
         // items without `derive(TS)` and `#[ts(..)]` compile => the expansion is at fault.
@@ -352,7 +376,7 @@ pub fn replay_compile(ctx: &Ctx, module: Module) -> Vec<Value> {
     corpus
         .discards
         .iter()
-        .filter(|d| d.code.is_some() && d.in_derive_ts)
+        // (a replayed module is one that has to compile: any rejection counts)
         .map(|d| {
             let known_sig = d.module.types.iter().any(|td| td.attrs.optional_fields == Some(false) && !td.params.is_empty());
             json!({"signature": if known_sig { "optional-fields-on-generic-bare-parameter-does-not-compile" } else { "accepted-item-does-not-compile" }, "message": d.rendered})
